@@ -64,6 +64,10 @@ def groups(tier, seed):
                 if td.get('structural_only'):
                     depth = 1 if r >= 5 else 2
                 gs.append({'sym': sym, 'dtype': dt, 'td': td, 'depth': depth, 'level': 1 if r <= 3 else 2})
+                # the other contraction policies build the result structure by different code (no merge for 'no_fusion')
+                if dt == 'float64' and 2 <= r <= 3 and i % 2 == 0 and not td.get('structural_only'):
+                    for pol in ('no_fusion', 'fuse_contracted'):
+                        gs.append({'sym': sym, 'dtype': dt, 'policy': pol, 'td': td, 'depth': depth, 'level': 2})
     return gs
 
 
@@ -103,11 +107,11 @@ def run_program(cfg, sym, td, seed, hist):
 
 def run_group(g, acc):
     sym = g['sym']
-    cfg = GC.make(sym, dtype=g['dtype'])
+    cfg = GC.make(sym, dtype=g['dtype'], policy=g.get('policy', 'fuse_to_matrix'))
     x0 = build_seed(cfg, sym, g['td'], acc.seed)
     m = monitors(x0, x0.n, 'seed', {'op': 'seed'})
     if m:
-        acc.fail({'sym': sym, 'dtype': g['dtype'], 'td': g['td'], 'hist': []}, m)
+        acc.fail({'sym': sym, 'dtype': g['dtype'], 'policy': g.get('policy', 'fuse_to_matrix'), 'td': g['td'], 'hist': []}, m)
         return
     level = 0 if acc.tier == 'quick' else 1
     seen = {h64(P.canon(x0))}
@@ -123,7 +127,7 @@ def explore(g, sym, frontier, seen, acc, level, maxdepth, extra_monitor=None):
             continue
         for act in P.enabled(x, level):
             acc.check_time()
-            case = {'sym': sym, 'dtype': g['dtype'], 'td': g['td'], 'hist': hist, 'action': act}
+            case = {'sym': sym, 'dtype': g['dtype'], 'policy': g.get('policy', 'fuse_to_matrix'), 'td': g['td'], 'hist': hist, 'action': act}
             st, outs = TC.call(P.apply, x, act)
             acc.transitions += 1
             nontriv = len(x.get_blocks_charge()) >= 2
@@ -158,7 +162,7 @@ def explore(g, sym, frontier, seen, acc, level, maxdepth, extra_monitor=None):
 
 
 def replay(case):
-    cfg = GC.make(case['sym'], dtype=case['dtype'])
+    cfg = GC.make(case['sym'], dtype=case['dtype'], policy=case.get('policy', 'fuse_to_matrix'))
     x = run_program(cfg, case['sym'], case['td'], case.get('seed', 0), case['hist'])
     if 'action' not in case:
         m = monitors(x, None, 'state', {'op': 'seed'})
